@@ -339,6 +339,42 @@ def gen_job(agg, job, tier, seed):
         shutil.rmtree(proj, ignore_errors=True)
 
 
+def miri_job(agg, job, tier, seed):
+    """MICRO workload under Miri (thorough tier only): many seeds = many basic-block-level schedules with weak-memory emulation."""
+    prop = agg.prop
+    n = job["seeds"][0 if tier == "quick" else 1]
+    if n == 0:
+        return
+    t = time.time()
+    e = {"MIRIFLAGS": f"-Zmiri-disable-isolation -Zmiri-many-seeds=0..{n}", "CARGO_TARGET_DIR": os.path.join(HARNESS, "target", "miri")}
+    cmd = ["cargo", "+nightly", "miri", "run", "--offline", "--quiet", "--features", ",".join(label_to_features("all")), "--", "micro", "--seed", str(seed), "--prop", prop]
+    rc, out, err = run_proc(cmd, timeout=3000, cwd=HARNESS, extra_env=e)
+    runs = []
+    for ln in out.splitlines():
+        if ln.startswith("{"):
+            try:
+                runs.append(json.loads(ln))
+            except Exception:
+                pass
+    if not runs and rc != 0:
+        agg.inconclusive.append(f"miri run failed (rc={rc}): {err.strip()[-400:]}")
+        return
+    for d in runs:
+        agg.scenarios += 1
+        agg.events += d.get("events", 0)
+        agg.add_obl(d.get("obl", {}))
+        agg.nontrivial += 1
+        for v in d.get("viol", []):
+            v["engine"] = "micro"
+            v["features"] = "all"
+            agg.viol.append(v)
+    if "Undefined Behavior" in err or "Data race" in err or "data race" in err:
+        idx = max(err.find("Undefined Behavior"), err.find("ata race"))
+        agg.inconclusive.append("Miri reported an error while interpreting the workload (UB/data race in executed code): " + err[max(0, idx - 200): idx + 600])
+    agg.hashes.update(("miri", i) for i in range(len(runs)))
+    agg.engines.append({"engine": "micro-miri", "features": "all", "miri_seeds": n, "completed_runs": len(runs), "wall_s": round(time.time() - t, 1)})
+
+
 def generic_job(agg, job, tier, seed):
     """Engines that run as one process and print one JSON line (mt, laws, probe)."""
     prop = agg.prop
@@ -398,6 +434,7 @@ def P(mode, n=None):
     return {"engine": "probe", "build": "all", "args": (a, a), "timeout": (120, 120)}
 
 
+MIRI = {"engine": "miri", "seeds": (0, 32)}
 LAWS = {"engine": "laws", "build": "all", "args": ([], []), "timeout": (120, 120)}
 
 PLANS = {
@@ -411,13 +448,13 @@ PLANS = {
     "C08": [S(["idle", "kill", "traffic"], 6000, 150000), S(["idle", "kill"], 3000, 60000, build="none", seed_off=1000)],
     "C09": [P("default"), P("set", 5), P("set", 1), P("spawn-then-set", 3), P("zero"), S(["backpressure", "traffic"], 8000, 200000), S(["backpressure"], 4000, 80000, build="none", seed_off=1000)],
     "C10": [LAWS, M(["blocking"], 6, 60), S(["timeouts", "kill"], 8000, 200000), S(["timeouts"], 4000, 80000, build="none", seed_off=1000)],
-    "C11": [M(["spawnstorm"], 4, 40), S(["refs", "lifecycle", "traffic"], 6000, 150000), S(["refs", "kill"], 3000, 60000, build="none", seed_off=1000)],
-    "C12": [S(["faults"], 10000, 250000), S(["deadlock"], 5000, 100000), S(["faults"], 4000, 80000, build="none", seed_off=1000)],
-    "C13": [M(["general", "blocking", "deathrace"], 9, 90), S(["traffic", "timeouts", "kill", "faults", "lifecycle"], 4000, 100000), S(["timeouts", "kill"], 3000, 60000, build="none", seed_off=1000)],
+    "C11": [MIRI, M(["spawnstorm"], 4, 40), S(["refs", "lifecycle", "traffic"], 6000, 150000), S(["refs", "kill"], 3000, 60000, build="none", seed_off=1000)],
+    "C12": [MIRI, S(["faults"], 10000, 250000), S(["deadlock"], 5000, 100000), S(["faults"], 4000, 80000, build="none", seed_off=1000)],
+    "C13": [MIRI, M(["general", "blocking", "deathrace"], 9, 90), S(["traffic", "timeouts", "kill", "faults", "lifecycle"], 4000, 100000), S(["timeouts", "kill"], 3000, 60000, build="none", seed_off=1000)],
     "C14": [S(["deadlock"], 16000, 400000, perts=(2, 4))],
-    "C15": [S(["deadlock"], 16000, 400000, perts=(2, 4), seed_off=500), S(["traffic", "faults"], 3000, 60000)],
+    "C15": [MIRI, S(["deadlock"], 16000, 400000, perts=(2, 4), seed_off=500), S(["traffic", "faults"], 3000, 60000)],
     "C16": [S(["traffic", "refs", "timeouts", "kill", "lifecycle", "backpressure", "idle", "faults"], 2500, 60000, mode="diff"), S(["refs", "traffic", "kill"], 2000, 40000, mode="diff", build="none", seed_off=1000)],
-    "C20": [M(["readers"], 6, 60), S(["metrics", "traffic", "kill", "faults"], 5000, 120000)],
+    "C20": [MIRI, M(["readers"], 6, 60), S(["metrics", "traffic", "kill", "faults"], 5000, 120000)],
     "C17": [M(["blocking"], 8, 90), M(["general"], 6, 60, seed_off=77)],
     "C19": [{"engine": "gen", "actors": (60, 400), "rounds": (1, 3)}, S(["traffic", "faults"], 3000, 60000)],
     "C18": [{"engine": "featdiff", "profiles": ["traffic", "backpressure", "lifecycle", "kill", "refs", "idle", "timeouts", "faults", "metrics"], "count": (1500, 20000)}],
@@ -456,6 +493,7 @@ RULES = {
     "and the canonical event trace (virtual times, every client/hook/lifecycle event, results; metric values and wall-clock measurements excluded) must be identical to the default-feature build's; distinct = distinct default-build trace hashes.",
     "gen": "GEN: grammar-based generator of actor programs (actor kind x derive/manual Actor x handler attribute x return-type spelling x message kind x ActorRef spelling), compiled against /repo and executed; "
     "one evaluation = one generated handler run through ask and tell with Ok- and Err-producing inputs; distinct = distinct handler shape tuples; negative programs are separate compile-only targets.",
+    "miri": "MICRO under Miri: a fixed small multi-thread workload (parallel spawns, concurrent in-actor asks, metric readers, blocking ask with timeout, concurrent failing sends) interpreted by Miri under N scheduler seeds; every seed is one execution checked by the same trace oracles plus Miri's UB/data-race detection.",
     "laws": "LAWS: exhaustive enumeration of all 18 ActorResult shapes and one value of each of the 7 Error variants against an independent expectation table.",
     "probe": "PROBE: fresh-process probes of the once-per-process default-capacity configuration (each mode is one execution).",
     "sim": "SIM: seeded scenario generator (profiles listed under engines) executed on a fresh single-thread paused-clock tokio runtime running the real rsactor code; "
@@ -508,6 +546,8 @@ def run_check(prop, tier, seed):
                 featdiff_job(agg, job, tier, seed)
             elif job["engine"] == "gen":
                 gen_job(agg, job, tier, seed)
+            elif job["engine"] == "miri":
+                miri_job(agg, job, tier, seed)
             else:
                 generic_job(agg, job, tier, seed)
     except Inconclusive as ex:
